@@ -56,8 +56,8 @@ CHECKS = {
     },
     "C02": {
         "rule": ("(1) exhaustive small scope: every list of N routes over 48 route atoms (8 matcher structures incl. and/or/not and match-all x 6 handler chains "
-                 "incl. terminal, non-terminal and two subroute forms) x every stream over {a,b} up to length L x every segmentation x both end modes "
-                 "(client closes / client silent until the virtual-time deadline); quick N=2 L=3 plus N=3 L=3 over a reduced alphabet of 15 atoms, thorough N=3 L=4 over all 48. (2) rapid: lists of <=4 routes, nesting <=2, "
+                 "incl. terminal, non-terminal and two subroute forms) x every stream over {a,b} up to length L x every segmentation x three end modes "
+                 "(client closes / closes with the end of stream reported by the read that returns the last bytes / silent until the virtual-time deadline); quick N=2 L=3 plus N=3 L=3 over a reduced alphabet of 15 atoms, thorough N=3 L=4 over all 48. (2) rapid: lists of <=4 routes, nesting <=2, "
                  "1-3 matchers per set, `not`, peek/read matchers, streams <=64 over {a,b,c}. Oracle: validity predicate over the recorded trace. "
                  "Non-trivial = >=2 routes, some route needs bytes before it can be decided, and one of: subroute, `not`, fallback ran, continuation after a "
                  "non-terminal route; distinct = distinct (route list, segmentation, end mode)."),
@@ -98,6 +98,7 @@ CHECKS = {
         ],
     },
     "C10": {
+        "tags": ["verif_proxy"],
         "rule": ("pools of 0..8 upstreams x 1..3 peers with generated unhealthy flags, fails vs max_fails (0..2) and connection counts vs max_connections (0..3), client "
                  "addresses v4/v6/no-port, random_choose 0..10, all six policies loaded as Caddy modules; selection sequences (|A|-windows for round_robin, 12 draws for "
                  "random policies) and rapid state-machine histories with state changes between calls; plus every availability vector of pools of 0..5 upstreams for three "
@@ -159,6 +160,7 @@ CHECKS = {
         ],
     },
     "C05": {
+        "tags": ["verif_udp"],
         "rule": ("real-time cases run 16 at a time: TCP through Server.handle on a scripted connection, UDP through the real packetConn fed by the harness; matching timeout "
                  "150-600 ms (thorough: -2 s) incl. sub-second values, start aligned to a generated tenth of the wall-clock second, client silent / trickling one byte every 2-40 ms / "
                  "flooding, route lists: always-undecided (read and peek matchers), decided-no + undecided, shipped http matcher, matcher error after n bytes, matcher error followed "
@@ -238,6 +240,7 @@ CHECKS = {
         ],
     },
     "C11": {
+        "tags": ["verif_proxy"],
         "rule": ("four generated real-time scenarios on the proxy handler loaded as a Caddy module, against loopback listeners the harness opens and closes (a closed port refuses at once): "
                  "(1) passive window: fail_duration 200-800 ms, max_fails 1-3, histories of 3-14 connects/sleeps; the outcome of each connect and the failure counter are compared "
                  "with a model of remembered failure times, only at instants >= 80 ms from a window edge; counters at rest; (2) retry window: try_duration 0-1 s, try_interval "
@@ -254,6 +257,7 @@ CHECKS = {
         ],
     },
     "C07": {
+        "tags": ["verif_tls"],
         "rule": ("ClientHellos captured from real crypto/tls clients with generated configurations: server names (fixed list incl. long, punycode, upper case, IP literal, none; generated "
                  "FQDNs), 0-8 ALPN protocols (lengths up to 255), every min/max version pair 1.0-1.3, cipher-suite subsets, curve permutations, tickets on/off, resumption after a real "
                  "handshake with an in-process server (ticket / PSK extensions); one in three hellos is mutated at byte level with lengths kept consistent (GREASE/unknown extensions "
